@@ -204,10 +204,12 @@ PROPS = {
                 "normalised multiset of transactions received by the client and by an observer, results of every transfer, final user list and "
                 "snapshot of the config dir + file root are identical (random ids / reference numbers / real-time file dates masked); "
                 "non-trivial = the partition put at least one cut strictly inside the first 22 bytes of a message (fixed-size header or length "
-                "field); distinct = hash(session, partition mode, partition seed)",
+                "field); distinct = hash(session, partition mode, partition seed); TestC02Interleave: transfer connection A delivers its 16-byte preamble in two segments and transfer connection B (a download or an upload) delivers its whole preamble in between: both must get / store their own file",
         "assumptions": ["net.Pipe: one server-side Read never spans two client Writes, so the Write sequence is the segmentation the server sees"],
-        "quick": {"runs": [{"test": "^TestC02$", "shards": 16, "checks": 120, "timeout": 600}]},
-        "thorough": {"runs": [{"test": "^TestC02$", "shards": 16, "checks": 3000, "timeout": 3400},
+        "quick": {"runs": [{"test": "^TestC02Interleave$", "shards": 1, "checks": 80, "timeout": 600},
+                           {"test": "^TestC02$", "shards": 15, "checks": 120, "timeout": 600}]},
+        "thorough": {"runs": [{"test": "^TestC02Interleave$", "shards": 1, "checks": 3000, "timeout": 3400},
+                              {"test": "^TestC02$", "shards": 15, "checks": 3000, "timeout": 3400},
                               {"fuzz": "^FuzzC02$", "test": "FuzzC02", "fuzztime": "180s", "timeout": 600, "group": 1, "weight": 16}]},
     },
     "C18": {
